@@ -2,6 +2,7 @@ package main
 
 import (
 	"fmt"
+	"os"
 	"go/types"
 	"sort"
 	"strconv"
@@ -258,6 +259,28 @@ func cfCalls(sc *Scenario, toks []cfTok, inner func(string, []SV, *symEval, *sym
 			return SV{}, false
 		}
 		known := func(i int) bool { return i < len(args) && args[i].K == "str" && args[i].Known }
+		if os.Getenv("L4DEBUG") == "cf" && strings.HasPrefix(callee, "slices.") {
+			fmt.Println("DBG cf", callee, len(args), args)
+		}
+		if (strings.HasPrefix(callee, "slices.Contains") || strings.HasPrefix(callee, "slices.Index")) && len(args) == 2 && known(1) && args[0].Len != nil && args[0].Len.Known {
+			idx, all := int64(-1), true
+			for i := int64(0); i < args[0].Len.N; i++ {
+				e, ok := lookupElem(st, args[0].Desc, i)
+				if !ok || e.K != "str" || !e.Known {
+					all = false
+					break
+				}
+				if e.S == args[1].S && idx < 0 {
+					idx = i
+				}
+			}
+			if all {
+				if strings.HasPrefix(callee, "slices.Contains") {
+					return symBool(idx >= 0), true
+				}
+				return symInt(idx), true
+			}
+		}
 		parseErr := SV{K: "ref", Known: true, Desc: "errParse"}
 		switch callee {
 		case "strings.ToLower":
@@ -443,9 +466,24 @@ func renderHeap(h map[string]SV, st *symState, v SV) string {
 		if v.Known {
 			return v.Desc
 		}
-	case "ref":
-		if v.Known && v.Nil {
+	case "ref", "addr":
+		if v.K == "ref" && v.Known && v.Nil {
 			return "nil"
+		}
+		if strings.HasPrefix(v.Desc, "new ") {
+			// a fresh object: the fields that were assigned
+			var ks []string
+			for k := range h {
+				if strings.HasPrefix(k, v.Desc+".") && !strings.ContainsAny(k[len(v.Desc)+1:], ".[") {
+					ks = append(ks, k)
+				}
+			}
+			sort.Strings(ks)
+			var parts []string
+			for _, k := range ks {
+				parts = append(parts, k[len(v.Desc)+1:]+":"+renderHeap(h, st, h[k]))
+			}
+			return "{" + strings.Join(parts, " ") + "}"
 		}
 	case "slice":
 		if v.Len != nil && v.Len.Known {
@@ -477,7 +515,7 @@ type cfTable struct {
 }
 
 func c15Tables(c *Ctx, r *Report, rule string) {
-	r.rule(rule, "Caddyfile option tables: each unmarshaller, evaluated on concrete token sequences with a model of the dispenser (Next/NextArg/NextBlock/Nesting/Val/RemainingArgs/CountRemainingArgs/NewFromNextSegment as in caddy v2.8.4), stores exactly the configuration its documented syntax denotes and rejects what the syntax does not allow", 40)
+	r.rule(rule, "Caddyfile option tables: each unmarshaller, evaluated on concrete token sequences with a model of the dispenser (Next/NextArg/NextBlock/Nesting/Val/RemainingArgs/CountRemainingArgs/NewFromNextSegment as in caddy v2.8.4), stores exactly the configuration its documented syntax denotes and rejects what the syntax does not allow", 200)
 	for _, tb := range cfTables {
 		fn := c.Fn(tb.fn)
 		if fn == nil {
@@ -490,7 +528,14 @@ func c15Tables(c *Ctx, r *Report, rule string) {
 			sc := &Scenario{Name: key, MaxVisit: 60, MaxPaths: 500, ConcreteCopy: true,
 				Params: map[string]SV{"recv": symRef("m", false), "p0": symRef("disp#0", false)},
 				Heap:   map[string]SV{},
-				Inline: base.Inline,
+			}
+			sc.Inline = func(f *ssa.Function) bool { // helpers of the package and the unmarshaller's own closures
+				for q := f.Parent(); q != nil; q = q.Parent() {
+					if q == fn {
+						return true
+					}
+				}
+				return base.Inline != nil && base.Inline(f)
 			}
 			for k, v := range base.Heap {
 				if strings.HasPrefix(k, "global:") {
@@ -663,6 +708,148 @@ var cfTables = []cfTable{
 			{"option with two values", "throttle {\n read_burst_size 1 2\n}", nil},
 			{"unknown option", "throttle {\n write_burst_size 1\n}", nil},
 			{"same-line argument", "throttle 1s", nil},
+		},
+	},
+	{
+		fn: "modules/l4rdp.(*MatchRDP).UnmarshalCaddyfile", source: "rdp { cookie_hash <value> } | { cookie_hash_regexp <value> } | { cookie_ip <ranges...>; cookie_port <ports...> } | { custom_info <value> } | { custom_info_regexp <value> } | rdp",
+		cases: []cfCase{
+			{"bare", "rdp", map[string]string{"CookieHash": `""`, "CookieHashRegexp": `""`, "CookieIPs": "[]", "CookiePorts": "[]", "CustomInfo": `""`, "CustomInfoRegexp": `""`}},
+			{"cookie_hash", "rdp {\n cookie_hash user\n}", map[string]string{"CookieHash": `"user"`, "CookieHashRegexp": `""`, "CustomInfo": `""`}},
+			{"cookie_hash_regexp", "rdp {\n cookie_hash_regexp ^adm\n}", map[string]string{"CookieHash": `""`, "CookieHashRegexp": `"^adm"`}},
+			{"cookie_ip and cookie_port", "rdp {\n cookie_ip 10.0.0.0/8 192.168.1.1\n cookie_port 3389 3390\n}", map[string]string{"CookieIPs": `["10.0.0.0/8" "192.168.1.1"]`, "CookiePorts": "[3389 3390]", "CookieHash": `""`}},
+			{"cookie_port first, repeated", "rdp {\n cookie_port 1\n cookie_ip ::1\n cookie_port 65535\n}", map[string]string{"CookieIPs": `["::1"]`, "CookiePorts": "[1 65535]"}},
+			{"custom_info", "rdp {\n custom_info farm1\n}", map[string]string{"CustomInfo": `"farm1"`, "CustomInfoRegexp": `""`, "CookieHash": `""`}},
+			{"custom_info_regexp", "rdp {\n custom_info_regexp ^farm\n}", map[string]string{"CustomInfo": `""`, "CustomInfoRegexp": `"^farm"`}},
+			{"cookie_hash with cookie_ip", "rdp {\n cookie_hash user\n cookie_ip 10.0.0.1\n}", nil},
+			{"cookie_port with cookie_hash", "rdp {\n cookie_port 3389\n cookie_hash user\n}", nil},
+			{"cookie_hash with custom_info", "rdp {\n cookie_hash user\n custom_info x\n}", nil},
+			{"custom_info with cookie_ip", "rdp {\n custom_info x\n cookie_ip 10.0.0.1\n}", nil},
+			{"cookie_hash and cookie_hash_regexp", "rdp {\n cookie_hash user\n cookie_hash_regexp ^u\n}", nil},
+			{"custom_info twice", "rdp {\n custom_info a\n custom_info b\n}", nil},
+			{"port above 65535", "rdp {\n cookie_port 65536\n}", nil},
+			{"port not a number", "rdp {\n cookie_port rdp\n}", nil},
+			{"cookie_hash with two values", "rdp {\n cookie_hash a b\n}", nil},
+			{"cookie_ip without value", "rdp {\n cookie_ip\n}", nil},
+			{"unknown option", "rdp {\n cookie user\n}", nil},
+			{"same-line argument", "rdp user", nil},
+		},
+	},
+	{
+		fn: "modules/l4openvpn.(*MatchOpenVPN).UnmarshalCaddyfile", source: "openvpn { modes <plain|auth|crypt|crypt2> [<...>]; ignore_crypto; ignore_timestamp; group_key <hex> | group_key_file <path>; auth_digest <digest>; group_key_direction <...>; server_key <base64> | server_key_file <path>; client_key <base64>; client_key_file <path> } (several client_key / client_key_file)",
+		cases: []cfCase{
+			{"bare", "openvpn", map[string]string{"Modes": "[]", "IgnoreCrypto": "false", "IgnoreTimestamp": "false", "GroupKey": `""`, "ClientKeys": "[]"}},
+			{"modes and flags", "openvpn {\n modes plain auth crypt crypt2\n ignore_crypto\n ignore_timestamp\n}", map[string]string{"Modes": `["plain" "auth" "crypt" "crypt2"]`, "IgnoreCrypto": "true", "IgnoreTimestamp": "true"}},
+			{"auth mode options", "openvpn {\n modes auth\n group_key abcdef\n auth_digest sha256\n group_key_direction inverse\n}", map[string]string{"Modes": `["auth"]`, "GroupKey": `"abcdef"`, "GroupKeyFile": `""`, "AuthDigest": `"sha256"`, "GroupKeyDirection": `"inverse"`, "IgnoreCrypto": "false"}},
+			{"key files", "openvpn {\n group_key_file /etc/ta.key\n server_key_file /etc/server.key\n}", map[string]string{"GroupKey": `""`, "GroupKeyFile": `"/etc/ta.key"`, "ServerKey": `""`, "ServerKeyFile": `"/etc/server.key"`}},
+			{"crypt2 keys", "openvpn {\n server_key c2VydmVy\n client_key Y2xpZW50MQ==\n client_key_file /etc/c2.key\n client_key Y2xpZW50Mw==\n client_key_file /etc/c4.key\n}", map[string]string{"ServerKey": `"c2VydmVy"`, "ClientKeys": `["Y2xpZW50MQ==" "Y2xpZW50Mw=="]`, "ClientKeyFiles": `["/etc/c2.key" "/etc/c4.key"]`}},
+			{"group_key and group_key_file", "openvpn {\n group_key ab\n group_key_file /x\n}", nil},
+			{"group_key_file and group_key", "openvpn {\n group_key_file /x\n group_key ab\n}", nil},
+			{"server_key and server_key_file", "openvpn {\n server_key ab\n server_key_file /x\n}", nil},
+			{"modes twice", "openvpn {\n modes plain\n modes auth\n}", nil},
+			{"five modes", "openvpn {\n modes plain auth crypt crypt2 plain\n}", nil},
+			{"no mode", "openvpn {\n modes\n}", nil},
+			{"ignore_crypto with a value", "openvpn {\n ignore_crypto yes\n}", nil},
+			{"ignore_timestamp twice", "openvpn {\n ignore_timestamp\n ignore_timestamp\n}", nil},
+			{"auth_digest twice", "openvpn {\n auth_digest sha1\n auth_digest sha256\n}", nil},
+			{"client_key with two values", "openvpn {\n client_key a b\n}", nil},
+			{"unknown option", "openvpn {\n mode plain\n}", nil},
+			{"same-line argument", "openvpn plain", nil},
+		},
+	},
+	{
+		fn: "modules/l4dns.(*MatchDNS).UnmarshalCaddyfile", source: "dns { <allow|deny> <*|name> [<*|type> [<*|class>]]; <allow_regexp|deny_regexp> <*|name_pattern> [<*|type_pattern> [<*|class_pattern>]]; default_deny; prefer_allow } | dns",
+		cases: []cfCase{
+			{"bare", "dns", map[string]string{"Allow": "[]", "Deny": "[]", "DefaultDeny": "false", "PreferAllow": "false"}},
+			{"allow name", "dns {\n allow example.com.\n}", map[string]string{"Allow": `[{Name:"example.com."}]`, "Deny": "[]"}},
+			{"allow name type class", "dns {\n allow example.com. A IN\n}", map[string]string{"Allow": `[{Class:"IN" Name:"example.com." Type:"A"}]`}},
+			{"deny any name, type", "dns {\n deny * MX\n}", map[string]string{"Deny": `[{Type:"MX"}]`, "Allow": "[]"}},
+			{"deny all three any", "dns {\n deny * * *\n}", map[string]string{"Deny": `[{}]`}},
+			{"allow_regexp", "dns {\n allow_regexp ^.*\\.org\\.$ ^(A|AAAA)$ ^IN$\n}", map[string]string{"Allow": `[{ClassRegexp:"^IN$" NameRegexp:"^.*\\.org\\.$" TypeRegexp:"^(A|AAAA)$"}]`}},
+			{"deny_regexp with any type", "dns {\n deny_regexp evil * ^CH$\n}", map[string]string{"Deny": `[{ClassRegexp:"^CH$" NameRegexp:"evil"}]`}},
+			{"several rules keep their order and lists", "dns {\n allow a.\n deny b.\n allow_regexp c\n deny_regexp d\n default_deny\n prefer_allow\n}", map[string]string{"Allow": `[{Name:"a."} {NameRegexp:"c"}]`, "Deny": `[{Name:"b."} {NameRegexp:"d"}]`, "DefaultDeny": "true", "PreferAllow": "true"}},
+			{"flags only", "dns {\n prefer_allow\n}", map[string]string{"DefaultDeny": "false", "PreferAllow": "true"}},
+			{"allow without value", "dns {\n allow\n}", nil},
+			{"allow with four values", "dns {\n allow a. A IN extra\n}", nil},
+			{"default_deny twice", "dns {\n default_deny\n default_deny\n}", nil},
+			{"prefer_allow with a value", "dns {\n prefer_allow yes\n}", nil},
+			{"unknown option", "dns {\n permit a.\n}", nil},
+			{"same-line argument", "dns allow", nil},
+			{"nested block", "dns {\n allow a. {\n  x\n }\n}", nil},
+		},
+	},
+	{
+		fn: "modules/l4proxy.(*RandomChoiceSelection).UnmarshalCaddyfile", source: "random_choose <int> | random_choose",
+		cases: []cfCase{
+			{"bare", "random_choose", map[string]string{"Choose": "0"}},
+			{"value", "random_choose 3", map[string]string{"Choose": "3"}},
+			{"not a number", "random_choose many", nil},
+			{"beyond 32 bits", "random_choose 2147483648", nil},
+			{"two values", "random_choose 2 3", nil},
+			{"block", "random_choose {\n x\n}", nil},
+		},
+	},
+	{
+		fn: "modules/l4proxy.(*RandomSelection).UnmarshalCaddyfile", source: "random",
+		cases: []cfCase{{"bare", "random", map[string]string{}}, {"argument", "random x", nil}, {"block", "random {\n x\n}", nil}},
+	},
+	{
+		fn: "modules/l4proxy.(*LeastConnSelection).UnmarshalCaddyfile", source: "least_conn",
+		cases: []cfCase{{"bare", "least_conn", map[string]string{}}, {"argument", "least_conn x", nil}, {"block", "least_conn {\n x\n}", nil}},
+	},
+	{
+		fn: "modules/l4proxy.(*RoundRobinSelection).UnmarshalCaddyfile", source: "round_robin",
+		cases: []cfCase{{"bare", "round_robin", map[string]string{}}, {"argument", "round_robin x", nil}, {"block", "round_robin {\n x\n}", nil}},
+	},
+	{
+		fn: "modules/l4proxy.(*FirstSelection).UnmarshalCaddyfile", source: "first",
+		cases: []cfCase{{"bare", "first", map[string]string{}}, {"argument", "first x", nil}, {"block", "first {\n x\n}", nil}},
+	},
+	{
+		fn: "modules/l4proxy.(*IPHashSelection).UnmarshalCaddyfile", source: "ip_hash",
+		cases: []cfCase{{"bare", "ip_hash", map[string]string{}}, {"argument", "ip_hash x", nil}, {"block", "ip_hash {\n x\n}", nil}},
+	},
+	{
+		fn: "modules/l4proxy.(*Upstream).UnmarshalCaddyfile", source: "upstream [<address:port>] { dial <address:port> [<address:port>]; max_connections <int>; tls; tls_client_auth <automate_name> | <cert_file> <key_file>; tls_curves <curves...>; tls_except_ports <ports...>; tls_insecure_skip_verify; tls_renegotiation <never|once|freely>; tls_server_name <name>; tls_timeout <duration>; ... } | upstream <address:port>",
+		cases: []cfCase{
+			{"shortcut", "upstream 10.0.0.1:80", map[string]string{"Dial": `["10.0.0.1:80"]`, "MaxConnections": "0", "TLS": "nil"}},
+			{"two shortcut addresses", "upstream 10.0.0.1:80 10.0.0.2:80", map[string]string{"Dial": `["10.0.0.1:80" "10.0.0.2:80"]`}},
+			{"dial option", "upstream {\n dial 10.0.0.1:80 10.0.0.2:80\n max_connections 5\n}", map[string]string{"Dial": `["10.0.0.1:80" "10.0.0.2:80"]`, "MaxConnections": "5", "TLS": "nil"}},
+			{"shortcut before dial options, in order", "upstream a:1 {\n dial b:2\n dial c:3\n}", map[string]string{"Dial": `["a:1" "b:2" "c:3"]`}},
+			{"tls flag", "upstream a:1 {\n tls\n}", map[string]string{"Dial": `["a:1"]`, "TLS": "{}"}},
+			{"tls options", "upstream a:1 {\n tls_server_name example.com\n tls_insecure_skip_verify\n tls_renegotiation once\n tls_timeout 5s\n}", map[string]string{"TLS": `{HandshakeTimeout:5000000000 InsecureSkipVerify:true Renegotiation:"once" ServerName:"example.com"}`}},
+			{"tls_client_auth automate", "upstream a:1 {\n tls_client_auth client.example.com\n}", map[string]string{"TLS": `{ClientCertificateAutomate:"client.example.com"}`}},
+			{"tls_client_auth files", "upstream a:1 {\n tls_client_auth /c.pem /k.pem\n}", map[string]string{"TLS": `{ClientCertificateFile:"/c.pem" ClientCertificateKeyFile:"/k.pem"}`}},
+			{"no address at all", "upstream {\n max_connections 5\n}", nil},
+			{"bare", "upstream", nil},
+			{"dial without value", "upstream {\n dial\n}", nil},
+			{"max_connections twice", "upstream a:1 {\n max_connections 1\n max_connections 2\n}", nil},
+			{"max_connections not a number", "upstream a:1 {\n max_connections many\n}", nil},
+			{"tls twice", "upstream a:1 {\n tls\n tls\n}", nil},
+			{"tls_renegotiation unknown value", "upstream a:1 {\n tls_renegotiation always\n}", nil},
+			{"tls_client_auth with three values", "upstream a:1 {\n tls_client_auth a b c\n}", nil},
+			{"tls_timeout not a duration", "upstream a:1 {\n tls_timeout soon\n}", nil},
+			{"tls_insecure_skip_verify with value", "upstream a:1 {\n tls_insecure_skip_verify yes\n}", nil},
+			{"unknown option", "upstream a:1 {\n weight 5\n}", nil},
+		},
+	},
+	{
+		fn: "modules/l4proxy.(*Handler).UnmarshalCaddyfile", source: "proxy [<upstreams...>] { health_interval|health_timeout|fail_duration|lb_try_duration|lb_try_interval <duration>; health_port|max_fails|unhealthy_connection_count <int>; proxy_protocol <v1|v2>; upstream [<args...>] [{...}] } (lb_policy is resolved through the module registry: not evaluated)",
+		cases: []cfCase{
+			{"one upstream", "proxy 10.0.0.1:80", map[string]string{"Upstreams": `[{Dial:["10.0.0.1:80"]}]`, "HealthChecks": "nil", "LoadBalancing": "nil", "ProxyProtocol": `""`}},
+			{"two upstreams in order", "proxy a:1 b:2", map[string]string{"Upstreams": `[{Dial:["a:1"]} {Dial:["b:2"]}]`}},
+			{"active health checks", "proxy a:1 {\n health_interval 5s\n health_port 8080\n health_timeout 2s\n}", map[string]string{"HealthChecks": `{Active:{Interval:5000000000 Port:8080 Timeout:2000000000}}`}},
+			{"passive health checks", "proxy a:1 {\n fail_duration 10s\n max_fails 3\n unhealthy_connection_count 100\n}", map[string]string{"HealthChecks": `{Passive:{FailDuration:10000000000 MaxFails:3 UnhealthyConnectionCount:100}}`}},
+			{"both kinds of health checks", "proxy a:1 {\n max_fails 1\n health_port 81\n}", map[string]string{"HealthChecks": `{Active:{Port:81} Passive:{MaxFails:1}}`}},
+			{"load balancing durations and proxy protocol", "proxy a:1 {\n lb_try_duration 3s\n lb_try_interval 250ms\n proxy_protocol v2\n}", map[string]string{"LoadBalancing": `{TryDuration:3000000000 TryInterval:250000000}`, "ProxyProtocol": `"v2"`}},
+			{"upstream options after shortcut upstreams", "proxy a:1 {\n upstream b:2\n upstream {\n  dial c:3 d:4\n  max_connections 7\n }\n}", map[string]string{"Upstreams": `[{Dial:["a:1"]} {Dial:["b:2"]} {Dial:["c:3" "d:4"] MaxConnections:7}]`}},
+			{"health_interval twice", "proxy a:1 {\n health_interval 1s\n health_interval 2s\n}", nil},
+			{"max_fails twice", "proxy a:1 {\n max_fails 1\n max_fails 2\n}", nil},
+			{"max_fails not a number", "proxy a:1 {\n max_fails many\n}", nil},
+			{"health_port with two values", "proxy a:1 {\n health_port 1 2\n}", nil},
+			{"fail_duration not a duration", "proxy a:1 {\n fail_duration long\n}", nil},
+			{"proxy_protocol twice", "proxy a:1 {\n proxy_protocol v1\n proxy_protocol v2\n}", nil},
+			{"upstream without address", "proxy {\n upstream {\n  max_connections 1\n }\n}", nil},
+			{"unknown option", "proxy a:1 {\n health_uri /\n}", nil},
 		},
 	},
 	{
